@@ -145,6 +145,123 @@ func availSet(names []string) map[string]bool {
 	return out
 }
 
+// c05LibraryContexts runs TryEval through contexts built by the library itself (NewCtxFromVars),
+// arranged so that they report availability truthfully: (all) every variable supplied, whatever
+// fetcher the layout selects; (map) a layout that selects the map-backed fetcher, which holds
+// exactly the supplied names; (slice) the available variables registered first, the context built
+// from that smaller config, the program compiled with the config extended by the unavailable
+// ones - their keys lie beyond the slice. The Kleene oracle is the same as for the instrumented fetcher.
+func c05LibraryContexts(c C05Case, mask int, k, full interface{}, r *Rec) *Violation {
+	u := &c.U
+	src := m.Render(c.Tree)
+	avail := availSet(c.Avail)
+	names := c.Tree.VarNames()
+	availVals := map[string]interface{}{}
+	for _, n := range names {
+		if avail[n] {
+			availVals[n] = u.Var(n).Val.X
+		}
+	}
+	check := func(what string, e *eval.Expr, ctx *eval.Ctx, keys map[string]eval.VariableKey) *Violation {
+		where := func() string {
+			return fmt.Sprintf("context=%s (%T)\nconfig=%s\nsrc=%s\ndump=%s\nsupplied=%v\nkey map=%v\nbinding=%v", what, ctx.VariableFetcher, maskName(mask), src, eval.Dump(e), c.Avail, keys, describeU(u))
+		}
+		o := Safe(func() (eval.Value, error) { return e.TryEval(ctx) })
+		if o.Panic != nil {
+			return Violf("C05: TryEval panics\n%s\n%v", where(), o)
+		}
+		if o.Err != nil {
+			return Violf("C05: TryEval returns an error although no sub-expression fails\n%s\n%v", where(), o)
+		}
+		if !m.IsDNE(k) && !m.EqualVal(o.Val, k) {
+			return Violf("C05: three-valued evaluation is definite but TryEval does not return its value\n%s\nTryEval=%v\nKleene=%s", where(), o, refString(k, nil))
+		}
+		var bres bool
+		ob := Safe(func() (eval.Value, error) { b, err := e.TryEvalBool(ctx); bres = b; return b, err })
+		if o.Val == eval.DNE {
+			if !errors.Is(ob.Err, eval.ErrDNE) {
+				return Violf("C05: TryEval is undecided but TryEvalBool does not report ErrDNE\n%s\nTryEvalBool=%v", where(), ob)
+			}
+		} else if b, isBool := o.Val.(bool); isBool && (ob.Err != nil || bres != b) {
+			return Violf("C05: TryEvalBool differs from TryEval\n%s\nTryEval=%v TryEvalBool=%v", where(), o, ob)
+		}
+		r.Class("library-context:" + what)
+		return nil
+	}
+	compile := func(uu *Universe) (*eval.Config, *eval.Expr, *Violation) {
+		cc, _ := NewConfig(uu, &Log{}, Build{Mask: mask})
+		e, co := SafeCompile(cc, src)
+		if co.Panic != nil || co.Err != nil {
+			return nil, nil, Violf("C05: compile failed\nsrc=%s\n%v", src, co)
+		}
+		return cc, e, nil
+	}
+	if len(availVals) == len(names) {
+		cc, e, v := compile(u)
+		if v != nil {
+			return v
+		}
+		return check("all-supplied", e, eval.NewCtxFromVars(cc, availVals), cc.VariableKeyMap)
+	}
+	// (map) undefined-variable mode, or keys outside 0..255
+	um := *u
+	switch mask % 3 {
+	case 0:
+		um.RegMode = RegUndefined
+	case 1:
+		um.RegMode, um.KeyBase, um.KeyStride = RegExplicit, 250, 1
+		if len(um.Vars) < 7 {
+			um.KeyBase = 256
+		}
+	default:
+		um.RegMode, um.KeyBase, um.KeyStride = RegExplicit, -2, 1
+	}
+	cc, e, v := compile(&um)
+	if v != nil {
+		return v
+	}
+	ctx := eval.NewCtxFromVars(cc, availVals)
+	if v := check("map-backed", e, ctx, cc.VariableKeyMap); v != nil {
+		return v
+	}
+	// the rest arrives through Set: the same context now gives the value
+	for _, n := range names {
+		if !avail[n] {
+			key, ok := cc.VariableKeyMap[n]
+			if !ok {
+				key = eval.UndefinedVarKey
+			}
+			_ = ctx.Set(key, n, u.Var(n).Val.X)
+		}
+	}
+	if o := Safe(func() (eval.Value, error) { return e.TryEval(ctx) }); o.Panic != nil || o.Err != nil || !m.EqualVal(o.Val, full) {
+		return Violf("C05: after Ctx.Set supplied the missing variables TryEval does not return the value of the expression\nconfig=%s src=%s\nTryEval=%v\nvalue=%s\nbinding=%v", maskName(mask), src, o, refString(full, nil), describeU(u))
+	}
+	// (slice) available variables first, context from the smaller config
+	us := *u
+	us.RegMode, us.Vars = RegGetOrReg, nil
+	for _, vd := range u.Vars {
+		if avail[vd.Name] {
+			us.Vars = append(us.Vars, vd)
+		}
+	}
+	nAvail := len(us.Vars)
+	for _, vd := range u.Vars {
+		if !avail[vd.Name] {
+			us.Vars = append(us.Vars, vd)
+		}
+	}
+	ccB, eB, v := compile(&us)
+	if v != nil {
+		return v
+	}
+	ccA := eval.CopyConfig(ccB)
+	for _, vd := range us.Vars[nAvail:] {
+		delete(ccA.VariableKeyMap, vd.Name)
+	}
+	return check("slice-backed-from-the-smaller-config", eB, eval.NewCtxFromVars(ccA, availVals), ccB.VariableKeyMap)
+}
+
 func checkC05(c C05Case, r *Rec) *Violation {
 	u := &c.U
 	src := m.Render(c.Tree)
@@ -222,6 +339,11 @@ func checkC05(c C05Case, r *Rec) *Violation {
 			}
 		}
 	}
+	for _, mask := range []int{0, 15, int(hash64(src) % 16)} {
+		if v := c05LibraryContexts(c, mask, k, full, r); v != nil {
+			return v
+		}
+	}
 	definite := !m.IsDNE(k)
 	after := kenv.KleeneDecidedAfterDNE(c.Tree, avail)
 	switch {
@@ -244,7 +366,7 @@ func checkC05(c C05Case, r *Rec) *Violation {
 
 var propC05 = Prop[C05Case]{
 	ID:    "C05",
-	Rule:  "typed random expression, repaired so that no sub-expression fails under the binding, x available/unavailable split of its variables x 16 optimization subsets; oracle: independent Kleene evaluator K on the source tree (definite K => TryEval returns exactly that value; otherwise DNE with nil error, TryEvalBool ErrDNE; never an error). Non-trivial = K is definite, at least one variable is unavailable, and some and/or is decided by an operand located after an unavailable one; distinct by source + split + binding",
+	Rule:  "typed random expression, repaired so that no sub-expression fails under the binding, x available/unavailable split of its variables x 16 optimization subsets; oracle: independent Kleene evaluator K on the source tree (definite K => TryEval returns exactly that value; otherwise DNE with nil error, TryEvalBool ErrDNE; never an error); the same through contexts the library builds itself (NewCtxFromVars with every value supplied; a map-backed context holding the available values, completed with Ctx.Set afterwards; a slice-backed context built from the smaller config that knows the available variables only), 3 subsets each. Non-trivial = K is definite, at least one variable is unavailable, and some and/or is decided by an operand located after an unavailable one; distinct by source + split + binding",
 	Gen:   genC05,
 	Check: checkC05,
 }
